@@ -663,6 +663,15 @@ def tiger_term(case):
 TS = {"left": 0, "right": 1}
 
 
+ULP1 = F(1, 2 ** 52)
+
+
+def tiger_exact(case):
+    """1 - coherence is exactly representable, so c, 1 - c and 1 - (1 - c) are route-independent doubles"""
+    c0 = dbl(case["coherence"])
+    return rd(1 - c0) == 1 - c0
+
+
 def tiger_compare(case, res, val):
     diffs = []
     nxt, obs, init = val
@@ -680,13 +689,19 @@ def tiger_compare(case, res, val):
     iobs = {a: {ns: {TS[o]: fr_of(p) for o, p in d if fr_of(p) != 0} for ns, d in per} for a, per in res.get("obs", [])}
     for ai, a in enumerate(["left", "right", "listen"]):
         for si, s in enumerate(["left", "right"]):
-            md = {e[0]: rd(fz(e[1])) for e in obs[ai][si]}
-            if a == "listen" and s == "right":
-                # tiger.py computes right = 1 - pleft with pleft = 1 - coherence: two roundings
-                md[1] = rd(1 - rd(1 - dbl(case["coherence"])))
-            md = {k: v for k, v in md.items() if v != 0}
-            if iobs.get(a, {}).get(s) != md:
-                diffs.append("observation_dist")
+            exact = tiger_exact(case)
+            mq = {e[0]: fz(e[1]) for e in obs[ai][si]}             # exact model values (c, 1 - c)
+            io = iobs.get(a, {}).get(s)
+            if exact or a != "listen":
+                # 1 - coherence is a double: every float route (c, 1-c, 1-(1-c)) gives the same bits -> bit-exact
+                if io != {k: rd(v) for k, v in mq.items() if rd(v) != 0}:
+                    diffs.append("observation_dist")
+            else:
+                # non-dyadic coherence: msdm may reach c / 1-c by different float routes (c itself or 1-(1-c));
+                # accept one ulp at 1.0 (2^-52 absolute) around the exact model value, nothing more
+                if io is None or set(io) != {k for k, v in mq.items() if v != 0} \
+                        or any(io[k] is None or abs(io[k] - mq[k]) > ULP1 for k in io):
+                    diffs.append("observation_dist")
     if {TS[s]: fr_of(p) for s, p in res.get("init", [])} != {e[0]: fz(e[1]) for e in init}:
         diffs.append("initial_state_dist")
     return sorted(set(diffs))
@@ -701,8 +716,11 @@ def tiger_oracle(case, res):
             continue
         for ns, d in per:
             dd = {o: fr_of(p) for o, p in d}
-            c = c0 if ns == "left" else rd(1 - rd(1 - c0))      # = c0 whenever 1 - c0 is a double
-            if dd.get(ns) != c:
+            got = dd.get(ns)
+            # bit-exact when 1 - coherence is a double (all float routes agree); else within one ulp at 1.0 of c
+            bad = got is None or (got != c0 if tiger_exact(case) else abs(got - c0) > ULP1)
+            c = c0
+            if bad:
                 out.append(("listen-accuracy-is-not-coherence", {"next_state": ns, "dist": d, "coherence": str(c)}))
     return out
 
